@@ -734,7 +734,7 @@ pub fn run(ctx: &mut Ctx, focus: Focus) {
     ctx.meta.insert("samples".into(), serde_json::json!(sources.iter().take(3).map(|s| s.1.chars().take(400).collect::<String>()).collect::<Vec<_>>()));
     ctx.meta.insert(
         "rule".into(),
-        serde_json::json!("programs of the core fragment from srcgen.rs (typed generation over env/parties/policies/assets/records/variants; C13: one or two semantic mutations per program), printed in two layouts; every random choice from VERIF_SEED"),
+        serde_json::json!("programs of the core fragment from srcgen.rs (typed generation over env/parties/policies/assets/records/variants; C13: one or two semantic mutations per program, among them repeated case / field / input names, plus 200 (thorough 2000) text programs around policy definitions in constructor form, id 141; C17: transaction names that collide exactly or up to letter case; up to six reference blocks per transaction), printed in two layouts; every random choice from VERIF_SEED"),
     );
     ctx.meta.insert(
         "distribution".into(),
